@@ -87,6 +87,22 @@ var c10Roots = []struct {
 	{"string", reflect.TypeFor[string]()},
 	{"*bool", reflect.TypeFor[*bool]()},
 	{"*float64", reflect.TypeFor[*float64]()},
+	// maps with keys of every comparable kind of the domain, nested containers
+	{"map[bool]string", reflect.TypeFor[map[bool]string]()},
+	{"map[float64]int", reflect.TypeFor[map[float64]int]()},
+	{"map[int32]string", reflect.TypeFor[map[int32]string]()},
+	{"map[uint8]bool", reflect.TypeFor[map[uint8]bool]()},
+	{"map[util.Name]int", reflect.TypeFor[map[futil.Name]int]()},
+	{"map[[2]int]string", reflect.TypeFor[map[[2]int]string]()},
+	{"map[struct{A int; B string}]int", reflect.TypeFor[map[struct {
+		A int
+		B string
+	}]int]()},
+	{"map[string]map[string][]int", reflect.TypeFor[map[string]map[string][]int]()},
+	{"[][]int", reflect.TypeFor[[][]int]()},
+	{"[2][2]string", reflect.TypeFor[[2][2]string]()},
+	{"map[string][2]int", reflect.TypeFor[map[string][2]int]()},
+	{"[]map[int]string", reflect.TypeFor[[]map[int]string]()},
 }
 
 var c10Strings = []string{"a", "b\"c", "x y", "`", "é", "line\nbreak", "tab\t", "\xff\xfe", "", "nul\x00", "back\\slash", "'", "日本", "%v @x", "crlf\r\nline\r\n", "cr\rmid", "two\nlines", "tail\n", "\ufeffbom", "sep\u2028x", "\a\b\f\v\x7f", "multi\nline `tick`\n"}
@@ -814,7 +830,7 @@ func init() {
 				return &vlitCase{Root: r.Intn(len(c10Roots)), Seed: r.U64(), Depth: 1 + r.Intn(4)}
 			},
 			ShrinkBudget: 6, MaxShrinks: 5,
-			Rule: "random values (depth ≤ 4) of 34 root types (one of them holding composites that differ only below a pointer side by side) built with reflect around fixture named types of three packages, time.Duration and an unnamed struct type: structs with exported and unexported fields, single-level pointers to scalars / strings / named scalars / structs (zero ones included), slices, arrays, maps with string / int / named keys, strings with quotes, newlines, backquotes, NUL and non-UTF-8 bytes, extreme integers, runes, float32/float64 edge values; rendered with snippet.Value through a real writer, then six more times through fresh writers (same bytes, same import names: map order must not show); compared with the model byte for byte (leaf literals and type texts supplied); oracle: every literal parses as a Go expression, and a sample (quick: 300, thorough: all) is compiled as `var vN T = <literal>` with the registered imports and run, canon.Value of the result compared with canon.Value of the original (nil = empty, omitted fields zero)",
+			Rule: "random values (depth ≤ 4) of 46 root types (maps keyed by bool, float64, int32, uint8, a named string, [2]int and a struct among them, nested maps, slices of slices, arrays of arrays) (one of them holding composites that differ only below a pointer side by side) built with reflect around fixture named types of three packages, time.Duration and an unnamed struct type: structs with exported and unexported fields, single-level pointers to scalars / strings / named scalars / structs (zero ones included), slices, arrays, maps with string / int / named keys, strings with quotes, newlines, backquotes, NUL and non-UTF-8 bytes, extreme integers, runes, float32/float64 edge values; rendered with snippet.Value through a real writer, then six more times through fresh writers (same bytes, same import names: map order must not show); compared with the model byte for byte (leaf literals and type texts supplied); oracle: every literal parses as a Go expression, and a sample (quick: 300, thorough: all) is compiled as `var vN T = <literal>` with the registered imports and run, canon.Value of the result compared with canon.Value of the original (nil = empty, omitted fields zero)",
 		}
 		return st
 	}
